@@ -22,7 +22,7 @@ func init() {
 				"NOT decided: the arrival-time quantifier itself ('immediately', every phase), i.e. no interleaving is explored.",
 			RuleText:    "one obligation per guard, per store, per (call site x error-use pattern), per select case, per front-end status branch",
 			Assumptions: trusted,
-			MinObs:      25,
+			MinObs:      20,
 		},
 		Run: runC10,
 	})
